@@ -109,8 +109,30 @@ def history(rng, ttl_q, n_msgs, seg, sig_extra):
     return cases
 
 
+def nested_history(ttl_q, offset):
+    """one overdue request; while its time-out notification is suspended another correlator
+    operation (a sweep) runs: it must not be reported a second time"""
+    sim = CorrSim(ttl_resp_q=ttl_q)
+    sim.nested_sweep = True
+    cases = [Case(sim.first_line, 'ok', None)]
+    try:
+        ln, out = sim.op_put(100, sim.submit(1, 55, 0))
+        cases.append(Case(ln, out, None))
+        ln, out = sim.op_put(100 + ttl_q + offset, sim.request('enq', 2))
+        n = out.count('E=submit:1:')
+        fail = None if n == 1 else 'request 1 unanswered: %d time-out reports with a sweep interleaved in the notification' % n
+        cases.append(Case(ln, out, ('nested', ttl_q // Q, offset), fail,
+                          {'op': 'nested', 'ttl': ttl_q, 'offset': offset}))
+    finally:
+        sim.close()
+    return cases
+
+
 def generate(rng, tier):
     thorough = tier == 'thorough'
+    for ttl in (Q, 15 * Q):
+        for off in (1, 2, 500):
+            yield from nested_history(ttl, off)
     for _ in range(1200 if thorough else 300):
         ttl = rng.choice((Q, Q * 5 // 2, 15 * Q))
         n = rng.randrange(1, 13)
@@ -118,6 +140,8 @@ def generate(rng, tier):
 
 
 def replay(inp):
+    if inp.get('op') == 'nested':
+        return nested_history(inp['ttl'], inp['offset'])[-1]
     # a recorded history is replayed on the model only (the real run needs the generator's seed)
     return Case('\n'.join(['c.new 15360 102400'] + inp.get('lines', [])), '', None, None, inp)
 
